@@ -41,6 +41,8 @@ KF_DIR = os.path.join(common.VERIF, "known_findings", KF_ID)
 TOP = ["a", "b", "c", "d", "u", "std", "io", "math", "std", "io"]
 SUB = ["u", "a", "w", "b", "io", "std", "stdio"]
 SYMS = ["x", "y", "f", "g", "C", "D", "h", "k"]
+BOUNDARY_FAMILIES = [["a/bu", "ab/u"], ["a/ab", "aa/b"], ["a/b/u", "ab/u"], ["a/b/u", "a/bu"],
+                     ["a/b/u", "a/bu", "ab/u"], ["std/io", "s/tdio"], ["io/u", "i/ou"]]
 # what the Spec knows about the standard library: its modules (paths below `std`)
 STD_MODULES = [["math"], ["io"], ["io", "stdio"], ["io", "fs"], ["env"], ["regexp"]]
 
@@ -93,6 +95,14 @@ def gen_graph(rng, allow_fail=True):
     nfiles = rng.randint(1, 5)
     keys = []
     tries = 0
+    # round 5 (seed C17_r5): module paths that differ only in where the segment boundary falls
+    # (`self.a.bu` / `self.ab.u` / `self.a.b.u`): distinct modules whatever the loader's cache key does
+    # with the separators
+    if rng.random() < 0.2:
+        keys = list(rng.choice(BOUNDARY_FAMILIES))
+        if rng.random() < 0.5:
+            keys += [k for k in sorted({x.split("/")[0] for x in keys}) if rng.random() < 0.7]
+        nfiles = max(nfiles, len(keys))
     while len(keys) < nfiles and tries < 50:
         tries += 1
         if keys and rng.random() < 0.5:
